@@ -253,10 +253,13 @@ func (i *Instance) Restart(newCasketfile Input) (*Instance, error) {
 	if err != nil {
 		return i, err
 	}
+	// the new instance is live and the old servers are stopped, so the
+	// reload has succeeded: an error from a shutdown callback of the old
+	// instance is reported, but it neither skips the remaining callbacks
+	// nor turns the reload into a failed one
 	for _, shutdownFunc := range i.OnShutdown {
-		err = shutdownFunc()
-		if err != nil {
-			return i, err
+		if err := shutdownFunc(); err != nil {
+			log.Printf("[ERROR] Shutdown callback of replaced instance returned error: %v", err)
 		}
 	}
 
